@@ -1318,6 +1318,12 @@ func (e *Env) modLocs(x ast.Expr) ([]modLoc, error) {
 				out = append(out, modLoc{key: "alloc"})
 				continue
 			}
+			if n.Name == "maps" {
+				// map contents are not modelled (lookups are unconstrained), so a map write cannot invalidate a fact;
+				// `modifies maps` only licenses the write for the frame condition (and must be licensed by callers too)
+				out = append(out, modLoc{key: "*maps", ref: "0"})
+				continue
+			}
 			// a global variable
 			if e.pkg != nil {
 				if gv, ok := e.pkg.Types.Scope().Lookup(n.Name).(*types.Var); ok {
